@@ -1,5 +1,6 @@
 import MlModel.Lemmas.AggRollingSimple
 import MlModel.Lemmas.AggRollingMeanVar
+import MlModel.Lemmas.AggRollingReservoir
 /-!
 # C01 — batching / sharding invariance, "rolling" metric family
 
@@ -166,6 +167,20 @@ theorem C01_rolling_sampler_sharded (α : Type) [Inhabited α] (k : Nat)
   rw [h] at this
   exact (unboundedSampler_lawfulU α k).result_congr this
 
+/-! ## FixedSizeSample (reservoir sampling, Algorithm L)
+
+The random generator is an arbitrary stream of draws (`Rng`).  For **every** history of
+`add`/`merge` (`FSSHist`), every `max_size` and every stream: no operation raises, the reservoir
+holds `min(max_size, n)` elements, they form a sub-multiset of the inputs, and
+`num_samples_reviewed = n`. -/
+theorem C01_rolling_reservoir {α : Type} [DecidableEq α] (maxSize : Nat) (h : FSSHist α) (rng : Rng) :
+    ∃ s rng', h.eval maxSize rng = .ok (s, rng') ∧
+      s.reservoir.length = min maxSize h.data.length ∧
+      (∀ x, s.reservoir.count x ≤ h.data.count x) ∧
+      s.reviewed = h.data.length := by
+  obtain ⟨s, g, he, hi⟩ := FSSHist.eval_spec maxSize h rng
+  exact ⟨s, g, he, hi.size, hi.members, hi.reviewed⟩
+
 /-! ## non-vacuity / sanity (tests, `decide`d) -/
 
 /-- the F2 input: a column that is all-NaN in the first batch only -/
@@ -177,5 +192,8 @@ example :
 example : (unboundedSampler Nat 1).result
     ((unboundedSampler Nat 1).sharded [[[⟨[1], rfl⟩]], [], [[⟨[2], rfl⟩, ⟨[3], rfl⟩]]])
       = .single [1, 2, 3] := by decide
+
+example : (FSSHist.eval 2 (.merge (.add .fresh [1, 2, 3]) (.add .fresh [4, 5])) [0, 1, 1, 0, 3, 2]).toOption.map
+    (fun p => (p.1.reservoir.length, p.1.reviewed)) = some (2, 5) := by decide
 
 end MlModel.C01
